@@ -105,6 +105,10 @@ class BinaryMatrixRank:
   requires = ["bits >= 0", "n >= 0", "r >= 1", "c >= 1", "k >= 0", "check_size"]
   raises = {"InsufficientDataError": ("C12", "n < 38 * r * c"), "ValueError": ("C12", "min(r, c) < k")}
   return_hints = []
+  # rows are the c-bit blocks of the string; what the second contract of the callee (#classes) requires of its caller
+  on_call = {SPLIT: ["assert [C12] args[0] == bits and args[1] == n and args[2] == c"],
+             f"{N}::BinaryMatrixRankImpl": ["assert [C12] args[1] == r and args[2] == c and args[3] == k",
+                                           "assert [C12] len(args[0]) >= r"]}
   props = ["C12"]
 
 
@@ -275,6 +279,31 @@ class LongestRunsClasses:
       "assert [C12] v_upper == (4 if n < 6272 else (9 if n < 750000 else 16))"]}
   # total: the class index is inside the count vector (otherwise the IndexError of v[idx] would be a path assumption
   # that hides a wrong index for long runs)
+  total = True
+  total_props = ["C12"]
+  props = ["C12"]
+
+
+# C12, NIST 2.5.4 (binary matrix rank): the integer part.  Matrix i is rows i*r .. (i+1)*r - 1; a matrix of rank R is
+# counted in class min(k, r - R) (class 0 = full rank, class k = rank <= r - k); chi-square with k degrees of freedom.
+impl(f"{N}::RankDistribution", {"r": "int", "c": "int", "k": "int", "allow_approximation": "bool"})
+
+
+@contract(f"{N}::BinaryMatrixRankImpl#classes")
+class BinaryMatrixRankImplClasses:
+  params = {"rows": "list[int]", "r": "int", "c": "int", "k": "int"}
+  returns = "opaque"
+  requires = ["r >= 1", "c >= 1", "k >= 0", "len(rows) >= r"]
+  loops = {0: dict(invariant=["len(v) == k + 1", "num_matrices == len(rows) // r", "num_matrices >= 1"],
+                   body_end=[("C12", "len(mat) == r"),
+                             ("C12", "forall(t, 0, r, mat[t] == rows[(i - 1) * r + t])"),
+                             ("C12", "v[min(k, r - g_rank)] == g_v0[min(k, r - g_rank)] + 1"),
+                             ("C12", "forall(t, 0, k + 1, t == min(k, r - g_rank) or v[t] == g_v0[t])")],
+                   head=["g_v0 = v[:]"])}
+  entry_ghost = ["g_rank = 0", "g_v0 = 0"]
+  on_call = {f"{U}::BinaryMatrixRank": ["g_rank = ret", "assert [C12] args[0] is mat"],
+             f"{N}::ChiSquare": ["assert [C12] args[0] is v", "assert [C12] args[2] is not None and args[2] == k"],
+             f"{N}::RankDistribution": ["assert [C12] args[0] == r and args[1] == c and args[2] == k"]}
   total = True
   total_props = ["C12"]
   props = ["C12"]
